@@ -441,7 +441,7 @@ func (r *run) mutate(iri string) (string, string) {
 	g := r.rng
 	dot := strings.LastIndexByte(iri, '.')
 	hp, ext := iri[6:dot], iri[dot+1:]
-	switch g.Intn(16) {
+	switch g.Intn(18) {
 	case 0: // flip one character to another alphabet character
 		p := g.Intn(len(hp))
 		c := alphabet[g.Intn(58)]
@@ -494,6 +494,25 @@ func (r *run) mutate(iri string) (string, string) {
 		return "regen:" + hp + ".rdf", "ext-rdf"
 	case 14:
 		return iri[:g.Intn(len(iri))], "prefix-of-iri"
+	case 15, 16: // other ENCODINGS of the same characters: a parser that decodes them accepts aliases of one IRI
+		p := g.Intn(len(iri))
+		c := iri[p]
+		switch g.Intn(7) {
+		case 0:
+			return iri[:p] + fmt.Sprintf("%%%02X", c) + iri[p+1:], "percent-escape-upper"
+		case 1:
+			return iri[:p] + fmt.Sprintf("%%%02x", c) + iri[p+1:], "percent-escape-lower"
+		case 2:
+			return strings.Replace(iri, ":", "%3A", 1), "percent-escaped-colon"
+		case 3:
+			return strings.Replace(iri, ".", "%2E", 1), "percent-escaped-dot"
+		case 4:
+			return iri[:p] + fmt.Sprintf("&#%d;", c) + iri[p+1:], "html-entity"
+		case 5:
+			return iri + []string{"\n", " ", "\t", "?x=1", "#frag", "/", "%20", "%00"}[g.Intn(8)], "suffix"
+		default:
+			return []string{"regen://", "regen:/", "urn:regen:", "regen:%20"}[g.Intn(4)] + iri[6:], "scheme-variant"
+		}
 	default:
 		return "regen:" + strings.Repeat("1", g.Range(1, 12)) + hp + "." + ext, "many-leading-1"
 	}
